@@ -35,6 +35,8 @@ static TasmanianSparseGrid make(int variant){
   else if (fam == "LocalPolynomial") g.makeLocalPolynomialGrid(2, outs, 3, (variant % 3) + 1, rule_localp);
   else if (fam == "Wavelet") g.makeWaveletGrid(2, outs, 2, 1);
   else g.makeFourierGrid(2, outs, 2, type_level);
+  if (variant % 3 == 1) g.setDomainTransform(std::vector<double>{-1.5, 2.0}, std::vector<double>{3.0, 4.5});
+  if (variant % 3 == 2 && fam != "Fourier" && fam != "Wavelet") g.setConformalTransformASIN(std::vector<int>{4, 6});
   if (outs > 0){
     std::vector<double> p = g.getNeededPoints(), v((size_t) g.getNumNeeded() * outs);
     for (int i = 0; i < g.getNumNeeded(); i++){ v[outs*i] = std::exp(p[2*i] - 0.3 * p[2*i+1]); v[outs*i+1] = p[2*i] * p[2*i+1]; }
@@ -53,6 +55,14 @@ static bool same(const TasmanianSparseGrid &a, const TasmanianSparseGrid &b, con
     ok = std::vector<double>(a.getLoadedValues(), a.getLoadedValues() + (size_t) a.getNumLoaded() * a.getNumOutputs()) == std::vector<double>(b.getLoadedValues(), b.getLoadedValues() + (size_t) b.getNumLoaded() * b.getNumOutputs());
     std::vector<double> x = {0.33, -0.21}, ya, yb; a.evaluate(x, ya); b.evaluate(x, yb); if (ya != yb) ok = false;
     if (ok) ok = std::vector<double>(a.getHierarchicalCoefficients(), a.getHierarchicalCoefficients() + (size_t) a.getNumLoaded() * a.getNumOutputs()) == std::vector<double>(b.getHierarchicalCoefficients(), b.getHierarchicalCoefficients() + (size_t) b.getNumLoaded() * b.getNumOutputs());
+  }
+  if (ok){
+    if (a.isSetDomainTransfrom() != b.isSetDomainTransfrom()) ok = false;
+    else if (a.isSetDomainTransfrom()){
+      std::vector<double> a1, b1, a2, b2; a.getDomainTransform(a1, b1); b.getDomainTransform(a2, b2);
+      if (a1 != a2 || b1 != b2) ok = false;
+    }
+    if (a.isSetConformalTransformASIN() != b.isSetConformalTransformASIN() || (a.isSetConformalTransformASIN() && a.getConformalTransformASIN() != b.getConformalTransformASIN()) || a.getLevelLimits() != b.getLevelLimits() || a.isUsingConstruction() != b.isUsingConstruction()) ok = false;
   }
   if (!ok) std::printf("   mismatch after %s\n", what);
   return ok;
@@ -88,7 +98,7 @@ def jobs(tier, seed, prop):
     R0 = X.Rules()
     enums = tables.cut_enum("TypeOneDRule", R0)[0]
     helpers = _rule_helpers(R0)
-    for fam in iotape.FAMS:
+    for fam in (iotape.FAMS if prop != "C14" else []):
         R = X.Rules()
         t, info = iotape.emit(R, fam)
         for mode in ("ascii", "binary"):
@@ -100,4 +110,39 @@ def jobs(tier, seed, prop):
                                     "well_formed_%s(g): size relations between members established by the builders (assumed representation invariant, see contracts/iotape.c)" % fam,
                                     "post-read recomputations are not modelled"],
                            label="Grid%s write<%s> / GridReaderVersion5 read round trip on the token tape" % (fam, mode)))
+    # top-level binary framing
+    Rt = X.Rules()
+    tt, tinfo = iotape.emit_top_binary(Rt)
+    cft = ContractFile("contracts/iotop.c")
+    pre_t = '#include "tsg_shim.h"\nint tsg_exc;\n#line 1 "/verif/contracts/iotop.c"\n' + cft.text(("text",)) + tt
+    for h, lab in (("h_top_roundtrip", "TasmanianSparseGrid::writeBinary / readBinary round trip of the framing (type, transforms, limits, construction flag)"),
+                   ("h_top_badheader", "readBinary on a stream with a wrong header / version / unknown grid type")):
+        if prop == "C06" and h == "h_top_badheader": continue
+        if prop == "C14" and h == "h_top_roundtrip": continue
+        out.append(Job("iotop." + h[6:], pre_t + cft.text(("harness",), [h]), h, timeout=120, replay=make_replay(prop, "LocalPolynomial") if h == "h_top_roundtrip" else None,
+                       functions=["%s:%d %s" % (f["file"], f["line"], f["name"]) for f in tinfo["functions"]], info=tinfo,
+                       assumed=["the family serializers are single tokens here (their round trip is the per-family jobs)", "ifs.read / IO::readNumber<char> deliver the bytes that were written (primitives assumed)"],
+                       label=lab))
+    if prop == "C14":
+        Rv = X.Rules()
+        vt, vinfo = iotape.emit_version_check(Rv)
+        vh = '''
+int g_version_Major, g_version_Minor;
+''' + vt + '''
+void h_version(void){
+  int a_major = nondet_int(), a_minor = nondet_int();
+  g_version_Major = nondet_int(); g_version_Minor = nondet_int();
+  __CPROVER_assume(g_version_Major >= 3 && g_version_Major < 1000 && g_version_Minor >= 0 && g_version_Minor < 1000 && a_minor >= 0);
+  tsg_exc = 0;
+  version_check(a_major, a_minor);
+  bool future = (a_major > g_version_Major) || (a_major == g_version_Major && a_minor > g_version_Minor);
+  __CPROVER_assert((tsg_exc == TSG_RUNTIME_ERROR) == (a_major < 3 || future), "C14 a file of a future version (or older than 3.0) raises std::runtime_error, every other version is accepted");
+  __CPROVER_assert(tsg_exc == 0 || tsg_exc == TSG_RUNTIME_ERROR, "C14 only runtime_error");
+  __CPROVER_assert(0, "VACUITY-CANARY");
+}
+'''
+        out.append(Job("iotop.version_check", '#include "tsg_shim.h"\nint tsg_exc;\n' + vh, "h_version", timeout=60,
+                       functions=["%s:%d %s" % (f["file"], f["line"], f["name"]) for f in vinfo["functions"]], info=vinfo,
+                       assumed=["stoi parsed the two numbers of the version string (its out_of_range for absurd versions, D16, is not under this contract)"],
+                       label="readAscii: future-version / pre-3.0 test against the lexicographic order of (major, minor)"))
     return out
